@@ -334,8 +334,11 @@ def observe(rec, data, model, climate, cycle, flag, months, stage):
                            allowed=(NotImplementedError,))
         if cycle in (12, 360):
             if ok:
-                per = months if cycle == 12 else \
-                    [m * 30 + d for m in months for d in range(30)]
+                # negative numbers count from the end of the year, as
+                # everywhere in Python
+                mm = sorted({m % 12 for m in months})
+                per = mm if cycle == 12 else \
+                    [m * 30 + d for m in mm for d in range(30)]
                 pidx = model_phase_indices(n_t, cycle)
                 idx = np.sort(pidx[per, :].flatten())
                 base = x if flag else model_anomaly(x, cycle)
@@ -475,8 +478,8 @@ def cases(draw, min_ops=1, max_ops=1, t_max=36):
             ops.append({"op": "global"})
         else:
             ops.append({"op": "set_window", "w": draw(window(time, lat, lon))})
-    months = draw(st.lists(st.integers(0, 11), min_size=0, max_size=3,
-                           unique=True))
+    months = draw(st.lists(st.integers(-12, 11), min_size=0, max_size=3,
+                           unique_by=lambda m: m % 12))
     return {"cls": cls, "obs": obs, "time": time, "lat": lat, "lon": lon,
             "cycle": cycle, "anomalies": draw(st.booleans()),
             "init_window": init, "ops": ops, "months": sorted(months)}
